@@ -132,6 +132,12 @@ def run_case(case):
             # all entries equal (where optimisers and samplers are started): still an interior point, the density is smooth there
             dic[pid].tensor = torch.full_like(dic[pid].tensor, float(np.exp(rng.normal(0.5, 0.5))))
             C["tied_vectors"] = C.get("tied_vectors", 0) + 1
+    if e in ("bdsk", "bdsk.edge") and case["seed"] % 2 == 0 and e + ".s" in dic:
+        # no psi-sampling in the older epoch (s = 0 there: sampling began later, the usual skyline set-up): s is then a
+        # constant of the model (it sits on the boundary of its domain) and the other parameters are differentiated
+        dic[e + ".s"].tensor = torch.tensor([0.0, 0.3], dtype=dic[e + ".s"].tensor.dtype)
+        leaves = {k: v for k, v in leaves.items() if k != e + ".s"}
+        C["epochs_without_psi_sampling"] = 1
     for pid, f in (case.get("scale_leaves") or {}).items():
         dic[pid].tensor = dic[pid].tensor.detach() * f
         C["scaled_up_rates"] = 1
